@@ -171,6 +171,11 @@ def extra(tier, seed):
         rng = Rng(seed * 7919 + 19)
         # `temperature` is the one module with run-time code of its own (the conversion table): always compared
         picks = FEATURES if tier == "thorough" else ["temperature", rng.choice([f for f in FEATURES if f != "temperature"])]
+        # a quantity module that itself contains conditional compilation (outside its tests) is compared as well:
+        # what it defines may depend on which OTHER features are enabled
+        for f in suspicious_modules():
+            if f not in picks:
+                picks.append(f)
         for feat in picks:
             vdir = os.path.join(root, f"harness_{feat}")
             mods_needed = [feat]
@@ -200,6 +205,24 @@ def extra(tier, seed):
     cov["distinct_nontrivial"] = cov["configurations"]
     cov["samples"] = [dict(config=dict(feature=c[0], std=c[1], decimal=c[2], serde=c[3], consumer_no_std=bool(c[4]))) for c in cfgs[:4]]
     return cov, fails, broken
+
+
+def suspicious_modules():
+    import translate_tables as tt
+    from rusttok import tokenize
+    out = []
+    for f in FEATURES:
+        p = os.path.join(pl.REPO, "src", f + ".rs")
+        if not os.path.isfile(p):
+            continue
+        sites = []
+        try:
+            tt.cfg_sites(tokenize(open(p, encoding="utf-8").read()), f, sites)
+        except Exception:  # noqa: BLE001 - a predicate the inventory cannot read is suspicious by itself
+            sites = [None]
+        if sites:
+            out.append(f)
+    return out
 
 
 def closure_modules(tables, feat):
